@@ -99,6 +99,9 @@ def classify_fill(c, solvent, value, base):
         return 'infeasible', 'non_positive', 0.0
     cur = R.measure(c.contents, base)
     pb = R.per(solvent, base)
+    if pb == 0:
+        # a solvent without measure in the unit of the target can never move the total (recorded finding KF03)
+        return 'infeasible', 'solvent_has_no_measure', 0.0
     # the fill requirement is honoured to one quantum q in *base* units (like mass requests)
     rq = H1.request_quantum(base, c.contents) + K * H1.storage_noise_in(c.contents, base) + cf.q
     need = value - cur
@@ -254,9 +257,11 @@ def classify_dilute(c, solute, conc, solvent):
     x = (top - value * bottom) / denom
     v_after = (R.measure(c.contents, 'L') + x * R.per(solvent, 'L')) / cf.vol_prefix
     cap = c.max_volume
-    if v_after > cap * (1 + 1e-6) + 1e-6:
+    # the parsed target is honoured to the concentration quantum q/c only, and the solvent to add scales with 1/c
+    slack = 1e-6 + K * (cq / value) * abs(v_after)
+    if v_after > cap * (1 + 1e-6) + slack:
         return 'infeasible', 'capacity', x, (value, num, den)
-    if v_after > cap * (1 - 1e-6) - 1e-6:
+    if v_after > cap * (1 - 1e-6) - slack:
         return 'boundary', 'capacity', x, (value, num, den)
     return 'feasible', '', x, (value, num, den)
 
